@@ -364,6 +364,10 @@ func (s *Scanner) Scan() (tok token.Token, line int, lit string, err error) {
 		s.next()
 	}
 	line = s.line
+	if s.ch == '\n' {
+		// a newline character belongs to the line it ends
+		line--
+	}
 scanAgain:
 	switch s.state {
 	case scanBlockStart:
